@@ -52,6 +52,20 @@ Theorem C14_preserve :
 Proof. exact preserve. Qed.
 Print Assumptions C14_preserve.
 
+(* (2') the same for ONE call of optimise_segment_group(a) on whatever the cell's groups currently are
+   (after any edits): every group's closure is kept and group a is left clean *)
+Theorem C14_single_group :
+  forall (sortS : list string -> list string) (sortZ : list Z -> list Z),
+    (forall l, Permutation (sortS l) l) -> (forall l, Permutation (sortZ l) l) ->
+  forall segs G fuel a G',
+    acyclic G -> optimise_group sortS sortZ segs fuel G a = Ret G' ->
+    map gid G' = map gid G /\
+    (forall b s, reach segs G b s <-> reach segs G' b s) /\
+    exists g', lookup G' a = Some g' /\ NoDup (members g') /\ NoDup (includes g') /\
+               forall s i, In s (members g') -> In i (includes g') -> ~ reach segs G' i s.
+Proof. exact single_group. Qed.
+Print Assumptions C14_single_group.
+
 (* (3) it leaves no duplicate member, no duplicate include, and no member that an included group supplies *)
 Theorem C14_clean :
   forall (sortS : list string -> list string) (sortZ : list Z -> list Z),
